@@ -672,6 +672,7 @@ def body(ck):
         "PRNG: range membership holds for every draw in range (proved); that jax.random.uniform stays in range is exercised only",
     ]
     ck.build_coq(); ck.compile_props()
+    ck.kernel_link()   # gait.py regenerated from the source = Gait.v at half period PI (coq/link/C20_link.v)
     cases, cj, sigs = [], [], []
 
     def add_sig(n0, sig):
